@@ -2,6 +2,8 @@
 # mutant_matrix.sh <outdir> <seeded-dir>... : run every quick check against each mutant in its own scratch copy (parallel)
 OUT="$1"; shift
 mkdir -p "$OUT"
+# run against a snapshot of the rule code so that /verif/py can be edited while the matrix runs
+SNAP=$(mktemp -d /tmp/vfsnap.XXXX); cp -r /verif/py "$SNAP/py"; export VERIF_PY="$SNAP/py" VERIF_HOME=/verif
 run_one() {
   D="$1"; OUT="$2"; N=$(basename "$D")
   W=/tmp/mutrun/$N
@@ -16,10 +18,11 @@ run_one() {
     echo "$P rc=$RC rules=$RULES" >> "$OUT/$N.txt"
     echo "$R" | grep -E "^(VIOLATION|  rule|  at)" | head -9 > "$OUT/$N.$P.detail"
   done
-  H=$(cd /verif && PYTHONPATH=/verif/py python3 -c "from vf.core import tree_hash; print(tree_hash())")
+  H=$(cd /verif && PYTHONPATH=$VERIF_PY python3 -c "from vf.core import tree_hash; print(tree_hash())")
   rm -rf "/verif/.cache/$H" "/tmp/mutrun/ev-$N"
   git -C /repo worktree remove --force "$W"
   echo "done $N"
 }
 export -f run_one
 printf "%s\n" "$@" | xargs -P 6 -I{} bash -c 'run_one {} '"$OUT"
+rm -rf "$SNAP"
